@@ -14,6 +14,12 @@
 //	   no panic; for the length-field cases the runtime.MemStats.TotalAlloc delta of the decode call
 //	   (single-threaded worker) must stay within the type's documented limits + a linear term in the
 //	   input size + a constant. A value that a decoder accepts must itself survive encode -> decode.
+//	   The structured cases run in worker processes whose address space is capped at (size at start
+//	   + 256 MiB); the length-field cases run first. A worker that dies (fatal "out of memory",
+//	   stack overflow) is a violation attributed to the case it was running, keyed by wire type,
+//	   kind of death and class of the case; the other cases of that class are skipped, and a type
+//	   whose workers died more than maxDeaths times is abandoned (exhaustive=false). The code under
+//	   test crashing often is a finding, never a harness error.
 package main
 
 import (
@@ -45,6 +51,8 @@ var (
 	flagFrom     = flag.Int64("from", 0, "internal: first case index")
 	flagProgress = flag.String("progress", "", "internal: progress file")
 	flagWTier    = flag.String("wtier", "quick", "internal: tier of the worker")
+	flagPhase    = flag.String("phase", "", "internal: field (length/count/value field cases) | bulk (truncations, byte deviations)")
+	flagSkip     = flag.String("skip", "", "internal: comma-separated field classes not to run any more")
 )
 
 type tally struct {
@@ -70,15 +78,16 @@ func (t *tally) d(k string) {
 func main() {
 	flag.Parse()
 	if *flagWorker != "" {
-		workerMain(*flagWorker, *flagFrom, *flagProgress, *flagWTier == "thorough")
+		workerMain(*flagWorker, *flagPhase, *flagFrom, *flagProgress, *flagWTier == "thorough", *flagSkip)
 		return
 	}
 	r := vcommon.Start("C32", "exploration")
 	r.Rule = "A: values of a small structured alphabet per wire type (varint value set; namespaces, parameter lists, property lists with <= 3 " +
-		"elements over 4..7 values per field plus maximal sizes; every control message type with every field over {min, typical, max}; subgroups " +
+		"elements over 4..7 values per field plus maximal sizes; every control message type with every field over {min, typical, max}, REQUEST_ERROR reasons of every length from 4 below to 8 above the largest " +
+		"that fits the 16-bit payload for each of the 9 widths of the code; subgroups " +
 		"with 0..3 objects x header flags) through real encode -> real decode. B: varint: all byte strings of length <= 3 and 9-byte strings " +
 		"over a boundary alphabet; other types: truncations, all single-byte deviations, double-byte deviations over a boundary alphabet, every " +
-		"length/count/value field at every boundary value. distinct = (wire type, kind of case, outcome class: accepted / error message with " +
+		"length/count/value field at every boundary value (these first), the element count handed to Parameters.Unmarshal over 19 values. distinct = (wire type, kind of case, outcome class: accepted / error message with " +
 		"numbers removed / panic) for B and (wire type, structural shape of the value) for A"
 	t := &tally{distinct: map[string]struct{}{}}
 
@@ -88,6 +97,13 @@ func main() {
 	roundTripStructured(r, t)
 	nVar := safetyVarint(r, t)
 	ws := <-wsCh
+	// (sampled here, after the in-process parts, so that the order of the samples does not depend on which part was faster)
+	for _, sd := range seeds() {
+		if sd.name == "msg-subscribe" || sd.name == "sg-props" {
+			r.Sample(map[string]any{"part": "B", "type": sd.codec, "seed": sd.name, "seedHex": fmt.Sprintf("%x", sd.b.b),
+				"fields": fmt.Sprint(sd.b.f), "cases": "truncations, single/double byte deviations, every field at every boundary value"})
+		}
+	}
 
 	for k := range t.distinct {
 		r.Distinct(k)
@@ -109,9 +125,20 @@ func main() {
 	}
 	sort.Strings(outcomes)
 	r.Set("decode_outcome_classes", outcomes)
-	r.Exhaustive = true
+	r.Set("worker_deaths_by_type", ws.Deaths)
+	r.Set("cases_skipped_after_a_death_in_their_class", ws.Skipped)
+	r.Set("types_not_completed", ws.Stopped)
+	// the stated space is complete unless the code under test killed so many workers that a type was abandoned,
+	// or cases were skipped because their field class had already killed a worker (both only together with violations)
+	r.Exhaustive = len(ws.Stopped) == 0 && ws.Skipped == 0
+	if !r.Exhaustive {
+		r.Note("decode-safety space not completed: %d case(s) skipped after a worker death in the same class; types abandoned after more than %d deaths: %v",
+			ws.Skipped, maxDeaths, ws.Stopped)
+	}
 	r.Assumptions = []string{
 		"the value alphabets and the byte-deviation bounds listed in rule; outside them nothing is claimed",
+		"every structured decode runs in a process whose address space is limited to its size at start + 256 MiB (25 x the largest allocation a decoder is entitled to): " +
+			"a reservation beyond that kills the worker and is reported for the case that asked for it",
 		"allocation is measured as runtime.MemStats.TotalAlloc delta of one decode call in a single-threaded worker, only for the length/count-field cases; " +
 			"bound = what the deviated field may claim (payload length up to 10 MiB, properties length up to 128 KiB, namespace count up to 32 x 16 bytes, rounded like the Go allocator rounds) + the declared 16-bit control message length + 64 bytes per input byte (2 for namespaces) + 1 KiB",
 		"control messages whose payload exceeds the 16-bit length field and namespaces with more than 32 fields are not values of the wire type (the encoder does not refuse them; not judged)",
@@ -354,6 +381,19 @@ func structuredCases(f func(rtCase)) {
 		f(rtCase{codec: "controlmessage", shape: fmt.Sprintf("RequestError no-stream reason for a %d-byte path (payload over the 16-bit length)", pl),
 			val: &controlmessage.RequestError{Code: controlmessage.RequestErrorCodeDoesNotExist, Reason: noStream(pl)}, oversize: true,
 			why: "the payload does not fit the 16-bit length field"})
+	}
+	// every reason length around the 16-bit payload threshold, for every width of the code varint that precedes it: a
+	// truncation rule that is off by the size of one of the length fields shows only in a window of a few lengths
+	for _, code := range []controlmessage.RequestErrorCode{controlmessage.RequestErrorCodeDoesNotExist, 0x80, 1 << 14, 1 << 21, 1 << 28, 1 << 35, 1 << 42, 1 << 49, 1 << 56} {
+		fitC := 65535 - refVarintLen(uint64(code)) - 1 - 3
+		for d := -4; d <= 8; d++ {
+			c := rtCase{codec: "controlmessage", shape: fmt.Sprintf("RequestError code of %d bytes, reason of (largest that fits)%+d bytes", refVarintLen(uint64(code)), d),
+				val: &controlmessage.RequestError{Code: code, Reason: strings.Repeat("e", fitC+d)}, required: true}
+			if d > 0 {
+				c.required, c.oversize, c.why = false, true, "the payload does not fit the 16-bit length field"
+			}
+			f(c)
+		}
 	}
 	f(rtCase{codec: "controlmessage", shape: "Subscribe track name of 70000 bytes (payload over the 16-bit length)",
 		val: &controlmessage.Subscribe{RequestID: 1, TrackName: strings.Repeat("t", 70000)}, why: "the payload does not fit the 16-bit length field"})
@@ -708,9 +748,60 @@ func leadingOnes(x byte) int {
 // ---------------------------------------------------------------------------------------------
 // B. decode safety: structured types, in worker subprocesses
 
+// maxDeaths: after this many worker deaths in one wire type the rest of that type's cases is not run (the deaths are
+// violations; the space of that type is reported as not completed).
+const maxDeaths = 24
+
+// deathKind classifies how the code under test took the worker process down, from what the runtime wrote.
+func deathKind(stderr string) string {
+	switch {
+	case strings.Contains(stderr, "out of memory") || strings.Contains(stderr, "cannot allocate"):
+		return "alloc-kills-process"
+	case strings.Contains(stderr, "stack overflow") || strings.Contains(stderr, "stack exceeds"):
+		return "stack-overflow-kills-process"
+	}
+	return "decode-kills-process"
+}
+
+// fatalLine: the line of a dead worker's stderr that says why it died.
+func fatalLine(s string) string {
+	for _, l := range strings.Split(s, "\n") {
+		if strings.HasPrefix(l, "fatal error:") || strings.HasPrefix(l, "runtime:") || strings.HasPrefix(l, "panic:") {
+			return vcommon.Short(l, 300)
+		}
+	}
+	return firstLine(s)
+}
+
+// repoFrame: the innermost frame of the code under test in a dead worker's goroutine dump ("" if there is none).
+func repoFrame(stderr string) string {
+	lines := strings.Split(stderr, "\n")
+	for i, l := range lines {
+		if strings.HasPrefix(l, "github.com/bluenviron/mediamtx/internal/") && !strings.Contains(l, "/zzverif/") {
+			fn := strings.TrimPrefix(l, "github.com/bluenviron/mediamtx/internal/")
+			if k := strings.LastIndex(fn, "("); k > 0 {
+				fn = fn[:k]
+			}
+			where := ""
+			if i+1 < len(lines) {
+				where = strings.TrimSpace(lines[i+1])
+				if k := strings.Index(where, " +0x"); k > 0 {
+					where = where[:k]
+				}
+				if k := strings.Index(where, "/internal/"); k >= 0 {
+					where = where[k+1:]
+				}
+			}
+			return fn + " (" + where + ")"
+		}
+	}
+	return ""
+}
+
 func safetyStructured(r *vcommon.Run, t *tally) *wsummary {
 	groups := []string{"namespace", "parameters", "properties", "controlmessage", "subgroup"}
-	total := &wsummary{MaxAlloc: map[string]uint64{}, MaxAllocIn: map[string]string{}, KindCounts: map[string]int64{}, SeedsLens: map[string]int{}}
+	total := &wsummary{MaxAlloc: map[string]uint64{}, MaxAllocIn: map[string]string{}, KindCounts: map[string]int64{}, SeedsLens: map[string]int{},
+		Deaths: map[string]int{}, Stopped: map[string]string{}}
 	var mu sync.Mutex
 	var wg sync.WaitGroup
 	// the seeds are written by the harness's own builders: each must be accepted by the real decoder and be the
@@ -731,118 +822,158 @@ func safetyStructured(r *vcommon.Run, t *tally) *wsummary {
 		vcommon.Harness("C32: %v", err)
 	}
 	defer os.RemoveAll(dir)
-	sampled := false
+	// violations of the workers are kept per (type, phase) and reported in a fixed order afterwards: the replay kept per class
+	// must not depend on which worker process was faster
+	type pv struct {
+		key, what string
+		rep       any
+	}
+	phases := []string{"field", "bulk"} // the allocation-limit cases first
+	found := map[string][]pv{}
 	for _, g := range groups {
 		wg.Add(1)
 		go func(g string) {
 			defer wg.Done()
-			from := int64(0)
-			for attempt := 0; ; attempt++ {
-				if attempt > 50 {
-					vcommon.Harness("C32: worker for %s died more than 50 times", g)
-				}
-				pf := fmt.Sprintf("%s/progress-%s", dir, g)
-				if err := os.WriteFile(pf, make([]byte, 4096), 0o600); err != nil {
-					vcommon.Harness("C32: %v", err)
-				}
-				cmd := exec.Command(os.Args[0], "-worker", g, "-from", fmt.Sprint(from), "-progress", pf, "-wtier", r.Tier)
-				var stderr bytes.Buffer
-				cmd.Stderr = &stderr
-				stdout, err := cmd.StdoutPipe()
-				if err != nil {
-					vcommon.Harness("C32: %v", err)
-				}
-				if err := cmd.Start(); err != nil {
-					vcommon.Harness("C32: cannot start worker: %v", err)
-				}
-				done := false
-				sc := bufio.NewReaderSize(stdout, 1<<20)
+			deaths := 0
+			for _, phase := range phases {
+				var skip []string
+				from := int64(0)
+				startFailures := 0
 				for {
-					line, err := sc.ReadString('\n')
-					if len(line) > 2 {
-						switch line[0] {
-						case 'V':
-							var v wviol
-							if json.Unmarshal([]byte(line[2:]), &v) == nil {
-								r.Violation(v.Key, v.What, v.Replay)
-							}
-						case 'S':
-							var s wsummary
-							if e := json.Unmarshal([]byte(line[2:]), &s); e != nil {
-								vcommon.Harness("C32: bad worker summary: %v", e)
-							}
-							mu.Lock()
-							total.Cases += s.Cases
-							total.Measured += s.Measured
-							total.Accepted += s.Accepted
-							for k, v := range s.MaxAlloc {
-								if v > total.MaxAlloc[k] {
-									total.MaxAlloc[k] = v
-									total.MaxAllocIn[k] = s.MaxAllocIn[k]
+					pf := fmt.Sprintf("%s/progress-%s", dir, g)
+					if err := os.WriteFile(pf, make([]byte, 4096), 0o600); err != nil {
+						vcommon.Harness("C32: %v", err)
+					}
+					cmd := exec.Command(os.Args[0], "-worker", g, "-phase", phase, "-from", fmt.Sprint(from), "-progress", pf, "-wtier", r.Tier,
+						"-skip", strings.Join(skip, ","))
+					var stderr bytes.Buffer
+					cmd.Stderr = &stderr
+					stdout, err := cmd.StdoutPipe()
+					if err != nil {
+						vcommon.Harness("C32: %v", err)
+					}
+					if err := cmd.Start(); err != nil {
+						vcommon.Harness("C32: cannot start worker: %v", err)
+					}
+					done := false
+					var vs []pv
+					sc := bufio.NewReaderSize(stdout, 1<<20)
+					for {
+						line, err := sc.ReadString('\n')
+						if len(line) > 2 {
+							switch line[0] {
+							case 'V':
+								var v wviol
+								if json.Unmarshal([]byte(line[2:]), &v) == nil {
+									vs = append(vs, pv{v.Key, v.What, v.Replay})
 								}
+							case 'S':
+								var s wsummary
+								if e := json.Unmarshal([]byte(line[2:]), &s); e != nil {
+									vcommon.Harness("C32: bad worker summary: %v", e)
+								}
+								mu.Lock()
+								total.Cases += s.Cases
+								total.Skipped += s.Skipped
+								total.Measured += s.Measured
+								total.Accepted += s.Accepted
+								for k, v := range s.MaxAlloc {
+									if v > total.MaxAlloc[k] {
+										total.MaxAlloc[k] = v
+										total.MaxAllocIn[k] = s.MaxAllocIn[k]
+									}
+								}
+								for k, v := range s.KindCounts {
+									total.KindCounts[k] += v
+								}
+								for k, v := range s.SeedsLens {
+									total.SeedsLens[k] = v
+								}
+								for _, d := range s.Distinct {
+									t.d("B " + d)
+								}
+								mu.Unlock()
+								done = true
+							case 'X':
+								vcommon.Harness("C32: worker %s: %s", g, strings.TrimSpace(line[2:]))
 							}
-							for k, v := range s.KindCounts {
-								total.KindCounts[k] += v
+						}
+						if err != nil {
+							if err != io.EOF {
+								vcommon.Harness("C32: reading worker output: %v", err)
 							}
-							for k, v := range s.SeedsLens {
-								total.SeedsLens[k] = v
-							}
-							for _, d := range s.Distinct {
-								t.d("B " + d)
-							}
-							if !sampled && g == "controlmessage" {
-								sampled = true
-							}
-							mu.Unlock()
-							done = true
-						case 'X':
-							vcommon.Harness("C32: worker %s: %s", g, strings.TrimSpace(line[2:]))
+							break
 						}
 					}
-					if err != nil {
-						if err != io.EOF {
-							vcommon.Harness("C32: reading worker output: %v", err)
-						}
+					werr := cmd.Wait()
+					mu.Lock()
+					found[g+"/"+phase] = append(found[g+"/"+phase], vs...)
+					mu.Unlock()
+					if done && werr == nil {
 						break
 					}
+					// the worker died: the death belongs to the case it was running, and is a violation of the property
+					// ("decoding arbitrary bytes either fails or succeeds without panicking and without allocating more than
+					// the protocol limits"), however often it happens
+					pb, _ := os.ReadFile(pf)
+					word := func(k int) uint64 {
+						var v uint64
+						for i := 7; i >= 0; i-- {
+							v = v<<8 | uint64(pb[8*k+i])
+						}
+						return v
+					}
+					cur := word(0)
+					if cur == 0 {
+						// died before its first case: nothing of the code under test has run yet (environment: fork/mmap failure under load)
+						startFailures++
+						if startFailures > 5 {
+							vcommon.Harness("C32: worker %s/%s died before its first case, %d times: %v\n%s", g, phase, startFailures, werr, vcommon.Short(stderr.String(), 1500))
+						}
+						continue
+					}
+					idx := int64(cur) - 1
+					desc := describeCase(g, phase, idx, r.Thorough())
+					cls := "?"
+					if desc != nil {
+						cls, _ = desc["class"].(string)
+					}
+					deaths++
+					kind := deathKind(stderr.String())
+					mu.Lock()
+					found[g+"/"+phase] = append(found[g+"/"+phase], pv{g + "/" + kind + "/" + cls, fmt.Sprintf(
+						"decoding case #%d (%s phase) of %s killed the worker process (%v; address space limited to its size at start + %d MiB): %s",
+						idx, phase, g, werr, workerHeadroom>>20, fatalLine(stderr.String())+" in "+repoFrame(stderr.String())), desc})
+					// what the dead worker had finished (its class counts are lost; the case counts are not)
+					total.Cases += int64(word(1)) + 1
+					total.Skipped += int64(word(2))
+					total.Deaths[g]++
+					mu.Unlock()
+					if deaths > maxDeaths {
+						mu.Lock()
+						total.Stopped[g] = fmt.Sprintf("stopped in the %s phase after case #%d: %d worker deaths", phase, idx, deaths)
+						mu.Unlock()
+						return
+					}
+					if cls != "?" {
+						// one death per class (the class is part of the violation key) is enough: the later cases of the class
+						// (larger values of the same field, other deviations of the same bytes) are not run
+						skip = append(skip, cls)
+					}
+					from = idx + 1
 				}
-				werr := cmd.Wait()
-				if done && werr == nil {
-					return
-				}
-				// the worker died: attribute the death to the case it was running
-				pb, _ := os.ReadFile(pf)
-				var cur uint64
-				for i := 7; i >= 0; i-- {
-					cur = cur<<8 | uint64(pb[i])
-				}
-				if cur == 0 {
-					vcommon.Harness("C32: worker %s died before its first case: %v\n%s", g, werr, vcommon.Short(stderr.String(), 1500))
-				}
-				idx := int64(cur) - 1
-				desc := describeCase(g, idx, r.Thorough())
-				cls := "?"
-				if desc != nil {
-					cls, _ = desc["class"].(string)
-				}
-				msg := firstLine(stderr.String())
-				r.Violation(g+"/decode-kills-process/"+cls, fmt.Sprintf("decoding case #%d of %s killed the worker process (%v): %s", idx, g, werr, msg), desc)
-				// counts of the dead worker's finished cases are lost for the totals; resume after the fatal case
-				mu.Lock()
-				total.Cases += idx - from + 1
-				mu.Unlock()
-				from = idx + 1
 			}
 		}(g)
 	}
 	wg.Wait()
-	t.evals.Add(total.Cases)
-	for _, sd := range seeds() {
-		if sd.name == "msg-subscribe" || sd.name == "sg-props" {
-			r.Sample(map[string]any{"part": "B", "type": sd.codec, "seed": sd.name, "seedHex": fmt.Sprintf("%x", sd.b.b),
-				"fields": fmt.Sprint(sd.b.f), "cases": "truncations, single/double byte deviations, every field at every boundary value"})
+	for _, g := range groups {
+		for _, phase := range phases {
+			for _, v := range found[g+"/"+phase] {
+				r.Violation(v.key, v.what, v.rep)
+			}
 		}
 	}
+	t.evals.Add(total.Cases)
 	return total
 }
 
